@@ -615,6 +615,18 @@ fn check_c17_case(case: &AbiCase, env: &mut Env) -> Verdict {
             if c.is_ok() {
                 d.close();
             }
+            // the same open with err == NULL ("If err is non-null, fills *err"): same outcome, no report
+            match d.open_without_err(&pstr) {
+                Some(opened) => {
+                    if opened != rust.is_ok() {
+                        v.fail(format!("open error: clockbound_open(path, NULL) {} a context, the Rust client reports {:?}", if opened { "returned" } else { "did not return" }, rust));
+                    }
+                    if opened {
+                        d.close();
+                    }
+                }
+                None => v.fail(format!("open error: clockbound_open(path, NULL) killed the C program (clockbound.h allows err == NULL); the Rust client reports {:?}", rust)),
+            }
         }
         let _ = std::fs::remove_dir_all(&dir);
         return v;
@@ -858,7 +870,7 @@ impl Property for C17 {
     type Case = AbiCase;
     const ID: &'static str = "C17";
     fn rule() -> String {
-        "cases = record with all fields drawn independently (negative and > 2^32 bounds, all of u32 for drift and reserved, sec+nsec of both timestamps, 3 statuses), published through the real ShmWriter (raw) or through the daemon's ShmUpdater, on a fresh path or over unusable leftovers (200 bytes of garbage, 9 bytes, a 128-byte stale segment); clock readings incl. causality breaches, ages beyond 5 s / beyond void_after, malformed drift; both clients attach first, then (half of the cases) the segment changes under them - generation turns odd, file wiped, one more update - or both first make a failing call, or one more update lands at the first clock read inside the call; open errors (missing file, bad magic, small declared size, generation 0); static and shared libclockbound. Oracle: (layout) the file decoded with offsets transcribed from PROTOCOL.md equals the published field values, length 72, header magic/size/version 1/generation 2, status in 0..2; (ABI) a C program compiled against clockbound.h returns for the same segment and the same virtual (realtime, monotonic) exactly the Rust client's earliest/latest/status or error kind/errno/detail; sizeof/offsetof/enumerators reported by the C program equal the documented ones. Non-trivial: all fields non-zero and pairwise distinct, or an error case.".into()
+        "cases = record with all fields drawn independently (negative and > 2^32 bounds, all of u32 for drift and reserved, sec+nsec of both timestamps, 3 statuses), published through the real ShmWriter (raw) or through the daemon's ShmUpdater, on a fresh path or over unusable leftovers (200 bytes of garbage, 9 bytes, a 128-byte stale segment); clock readings incl. causality breaches, ages beyond 5 s / beyond void_after, malformed drift; both clients attach first, then (half of the cases) the segment changes under them - generation turns odd, file wiped, one more update - or both first make a failing call, or one more update lands at the first clock read inside the call; open errors (missing file, bad magic, small declared size, generation 0; each also with err == NULL, which clockbound.h allows); static and shared libclockbound. Oracle: (layout) the file decoded with offsets transcribed from PROTOCOL.md equals the published field values, length 72, header magic/size/version 1/generation 2, status in 0..2; (ABI) a C program compiled against clockbound.h returns for the same segment and the same virtual (realtime, monotonic) exactly the Rust client's earliest/latest/status or error kind/errno/detail; sizeof/offsetof/enumerators reported by the C program equal the documented ones. Non-trivial: all fields non-zero and pairwise distinct, or an error case.".into()
     }
     fn assumptions() -> Vec<String> {
         vec!["the magic number is read as the two 32-bit words 0x414D5A4E 0x43420200 in native byte order (PROTOCOL.md lists the eight bytes in that reading)".into()]
